@@ -42,7 +42,11 @@ where
         loop {
             match core_iter.next() {
                 Some(x) => self.values[i] = Some(x),
-                None => break,
+                None => {
+                    // the wrapped iterator is consumed: it must not be called again by later pulls
+                    iter.mark_completed();
+                    break;
+                }
             }
 
             i += 1;
